@@ -38,19 +38,23 @@ theorem mustRejectWith_sound (env : Env) (auth : Str) (cv : String → List SExp
     intro k h hr
     obtain ⟨rfl, he⟩ := govRel_sound env auth _ k a b h
     simp [evalBWith, he, hr]
-  | case5 x y c hx ih =>
+  | case5 d a b =>
+    intro k h hr
+    obtain ⟨rfl, he⟩ := govRel_sound env auth _ k a b h
+    simp [evalBWith, he, hr]
+  | case6 x y c hx ih =>
     intro k h hr
     simp only [Option.some.injEq] at h
     subst h
     simp [evalBWith, ih c hx hr]
-  | case6 x y hx _ ih =>
+  | case7 x y hx _ ih =>
     intro k h hr
     simp [evalBWith, ih k h hr]
-  | case7 h' args =>
+  | case8 h' args =>
     intro k h hr
     simp only [evalBWith]
     exact hcf h' args k h hr
-  | case8 b _ _ _ _ _ _ =>
+  | case9 b _ _ _ _ _ _ _ =>
     intro k h; simp at h
 
 /-- an error helper that `helperMustReject` accepts returns an error for every authority not related to the keeper's -/
@@ -124,6 +128,57 @@ theorem depProtectedBody_sound {σ : Type} (hs : List Helper) (env : Env) (auth 
       exact ih s h
     | work _ _ => simp [depProtectedBody] at h
     | forward _ _ _ => simp [depProtectedBody] at h
+    | ensureModuleAcc _ _ => simp [depProtectedBody] at h
+
+theorem isStateGuard_sound (hs : List Helper) (env : Env) (auth : Str) (govName : String)
+    (hst : env.stateModAddr govName = env.gov) (hne : auth ≠ env.gov) (g : BExpr)
+    (h : isStateGuard govName g = true) : evalB hs env auth g = true := by
+  have hne' : (env.gov == auth) = false := by
+    simp only [beq_eq_false_iff_ne, ne_eq]; exact fun e => hne e.symm
+  have hne'' : (auth == env.gov) = false := by
+    simp only [beq_eq_false_iff_ne, ne_eq]; exact hne
+  unfold isStateGuard at h
+  split at h
+  · simp only [beq_iff_eq] at h; subst h
+    simp [evalB, evalBWith, evalS, relK, hst, hne']
+  · simp only [beq_iff_eq] at h; subst h
+    simp [evalB, evalBWith, evalS, relK, hst, hne'']
+  · simp at h
+
+/-- a state-reading guard program (`stateGuardBody`): when the module accounts it fetches exist (fetching them changes
+nothing) and the x/auth state holds the keeper's authority as the address of the module account it compares with, every
+other authority string is rejected with the state untouched -/
+theorem stateGuardBody_sound {σ : Type} (hs : List Helper) (env : Env) (auth : Str) (W : World σ) (T m : String)
+    (call : String → String → σ → Res × σ) (govName : String)
+    (hst : env.stateModAddr govName = env.gov) (hne : auth ≠ env.gov) :
+    ∀ (body : List Stmt) (s : σ), stateGuardBody govName body = true →
+      (∀ n ∈ ensuredBefore body, ∀ s', W.ensureAcc n s' = s') →
+      execBody hs env auth W T m call body s = (.err, s) := by
+  intro body
+  induction body with
+  | nil => intro s h; simp [stateGuardBody] at h
+  | cons st rest ih =>
+    intro s h hens
+    cases st with
+    | nop _ =>
+      simp only [stateGuardBody] at h
+      simp only [execBody]
+      exact ih s h (by simpa [ensuredBefore] using hens)
+    | ensureModuleAcc n _ =>
+      simp only [stateGuardBody] at h
+      simp only [execBody]
+      have h1 : W.ensureAcc n s = s := hens n (by simp [ensuredBefore]) s
+      rw [h1]
+      exact ih s h (fun n' hn' => hens n' (by simp [ensuredBefore, hn']))
+    | rejectIf g =>
+      have hne' : (env.gov == auth) = false := by
+        simp only [beq_eq_false_iff_ne, ne_eq]; exact fun e => hne e.symm
+      have hne'' : (auth == env.gov) = false := by
+        simp only [beq_eq_false_iff_ne, ne_eq]; exact hne
+      have hg : isStateGuard govName g = true := by simpa [stateGuardBody] using h
+      simp [execBody, isStateGuard_sound hs env auth govName hst hne g hg]
+    | work _ _ => simp [stateGuardBody] at h
+    | forward _ _ _ => simp [stateGuardBody] at h
 
 /-- a dependency handler that `depProtected` accepts, called directly with an authority not related to the keeper's
 authority, returns an error and leaves the state untouched -/
@@ -137,5 +192,20 @@ theorem depProtected_sound {σ : Type} (P : Program) (env : Env) (auth : Str) (W
   | some impl =>
     simp only [hres] at h ⊢
     exact depProtectedBody_sound P.helpers env auth W impl.recv impl.method _ k hr impl.body s h
+
+/-- a dependency handler with a state-reading guard program, called directly -/
+theorem depStateGuarded_sound {σ : Type} (P : Program) (env : Env) (auth : Str) (W : World σ) (govName : String)
+    (hst : env.stateModAddr govName = env.gov) (hne : auth ≠ env.gov) (f : Nat) (T m : String) (s : σ)
+    (h : depStateGuarded P govName T m = true)
+    (hens : ∀ n ∈ depEnsured P T m, ∀ s', W.ensureAcc n s' = s') :
+    exec P env auth W (f + 1) T m s = (.err, s) := by
+  unfold depStateGuarded at h
+  unfold depEnsured at hens
+  simp only [exec]
+  cases hres : resolve P T m with
+  | none => simp [hres] at h
+  | some impl =>
+    simp only [hres] at h hens ⊢
+    exact stateGuardBody_sound P.helpers env auth W impl.recv impl.method _ govName hst hne impl.body s h hens
 
 end FxVerif.Model.C16
